@@ -581,6 +581,10 @@ func SimplifyPath64(path Path64, epsilon float64, isClosedPath bool) Path64 {
 	l := len(path)
 	high := l - 1
 	epsSq := sqr(epsilon)
+	if epsSq >= math.MaxFloat64 {
+		// the end points of an open path are protected by the sentinel MaxFloat64: keep the threshold below it
+		epsSq = math.Nextafter(math.MaxFloat64, 0)
+	}
 
 	if l < 4 {
 		return path
@@ -662,6 +666,10 @@ func SimplifyPathD(path PathD, epsilon float64, isClosedPath bool) PathD {
 	length := len(path)
 	high := length - 1
 	epsSq := sqr(epsilon)
+	if epsSq >= math.MaxFloat64 {
+		// the end points of an open path are protected by the sentinel MaxFloat64: keep the threshold below it
+		epsSq = math.Nextafter(math.MaxFloat64, 0)
+	}
 
 	if length < 4 {
 		return path
